@@ -485,7 +485,7 @@ func (c *FuncCtx) execIf(st *State, x *ast.IfStmt) []outcome {
 			outs = append(outs, outcome{oNext, s2})
 		}
 	}
-	return outs
+	return c.mergeNext(outs)
 }
 
 // ------------------------------------------------------------- switch ---
@@ -540,7 +540,7 @@ func (c *FuncCtx) execSwitch(st *State, x *ast.SwitchStmt) []outcome {
 	} else {
 		outs = append(outs, outcome{oNext, s2})
 	}
-	return outs
+	return c.mergeNext(outs)
 }
 
 // switchBody: a break inside a switch leaves the switch.
@@ -622,7 +622,7 @@ func (c *FuncCtx) execTypeSwitch(st *State, x *ast.TypeSwitchStmt) []outcome {
 	} else {
 		outs = append(outs, outcome{oNext, s2})
 	}
-	return outs
+	return c.mergeNext(outs)
 }
 
 // -------------------------------------------------------------- loops ---
@@ -824,7 +824,7 @@ func (c *FuncCtx) execFor(st *State, x *ast.ForStmt) []outcome {
 		e.assume(mkNot(cond.S))
 		outs = append(outs, outcome{oNext, e})
 	}
-	return outs
+	return c.mergeNext(outs)
 }
 
 func (c *FuncCtx) needVariant(li *loopInfo, dec []*Clause) {
@@ -977,10 +977,10 @@ func (c *FuncCtx) execRange(st *State, x *ast.RangeStmt) []outcome {
 			m.assume(app("<", nk, length))
 			generic(m, nk, ncnt)
 		})
-		return outs
+		return c.mergeNext(outs)
 	}
 	generic(st, "0", "0")
-	return outs
+	return c.mergeNext(outs)
 }
 
 func (c *FuncCtx) bindRangeVar(st *State, e ast.Expr, v *Val, tok token.Token) {
